@@ -114,6 +114,26 @@ func topKind(e expr) string {
 
 // classify: provisional finding class (function names of the expression + kind of diff).
 func classify(q *query, kind string) string {
+	if kind == "err" {
+		return "err:" + kind
+	}
+	trig := ""
+	q.e.walk(func(x expr) {
+		if sel, ok := x.(*selector); ok {
+			for i := range sel.matchers {
+				m := &sel.matchers[i]
+				if m.re != nil && trig == "" {
+					trig = "matcher:regex"
+				}
+				if m.re == nil && m.lit == "" {
+					trig = "matcher:empty_value"
+				}
+			}
+		}
+	})
+	if trig != "" {
+		return trig
+	}
 	var parts []string
 	seen := map[string]bool{}
 	q.e.walk(func(x expr) {
